@@ -41,6 +41,11 @@ theorem lc_keeps_balanced (lb : LB) (hn : 0 < lb.size) (hb : Proofs.LB.Balanced 
     ∃ i, lb.lcNext = some i ∧ Proofs.LB.Balanced (Proofs.LB.opened lb i) :=
   Proofs.LB.lc_keeps_balanced lb hn hb
 
+/-- from a fresh engine (`n` loops, no connection) any number of accepts under least-connections
+    leaves no two loops more than one connection apart -/
+theorem lc_run_balanced (n k : Nat) : Proofs.LB.Balanced (Proofs.LB.lcRun ⟨List.replicate n 0, 0⟩ k) :=
+  Proofs.LB.lcRun_balanced _ (Proofs.LB.fresh_balanced n) k
+
 /-- source-address hash: a registered loop, a pure function of (number of loops, address),
     and the sign branch of `hash` is dead on 64-bit ints -/
 theorem hash_in_range (lb : LB) (hn : 0 < lb.size) (addr : List UInt8) :
@@ -60,6 +65,7 @@ theorem rr_in_range (lb : LB) (hn : 0 < lb.size) : ∃ i lb', lb.rrNext = some (
 example : Proofs.LB.rrRun ⟨[0, 0, 0], 0⟩ 7 = [0, 1, 2, 0, 1, 2, 0] := by decide
 example : (⟨[3, 1, 2, 1], 0⟩ : LB).lcNext = some 1 := by decide
 example : Proofs.LB.rrRun ⟨[0, 0, 0], 5⟩ 3 = [2, 0, 1] := by decide
+example : (Proofs.LB.lcRun ⟨List.replicate 3 0, 0⟩ 7).counts = [3, 2, 2] := by decide
 example : (Proofs.LB.opened ⟨[2, 1, 2, 1], 0⟩ 1).counts = [2, 2, 2, 1] := by decide
 example : Proofs.LB.Balanced ⟨[2, 1, 2, 1], 0⟩ := by
   intro j k hj hk
